@@ -6,6 +6,7 @@ import (
 	"fmt"
 	"strconv"
 	"strings"
+	"sync"
 	"time"
 
 	"github.com/bluenviron/mediamtx/internal/conf"
@@ -79,8 +80,11 @@ type Handler struct {
 	running   bool
 	query     string
 
+	nextConfMutex sync.Mutex
+	nextConf      *conf.Path
+
 	// in
-	chReloadConf          chan *conf.Path
+	chReloadConf          chan struct{}
 	chInstanceSetReady    chan defs.PathSourceStaticSetReadyReq
 	chInstanceSetNotReady chan defs.PathSourceStaticSetNotReadyReq
 
@@ -90,7 +94,7 @@ type Handler struct {
 
 // Initialize initializes Handler.
 func (s *Handler) Initialize() {
-	s.chReloadConf = make(chan *conf.Path)
+	s.chReloadConf = make(chan struct{}, 1)
 	s.chInstanceSetReady = make(chan defs.PathSourceStaticSetReadyReq)
 	s.chInstanceSetNotReady = make(chan defs.PathSourceStaticSetNotReadyReq)
 
@@ -221,6 +225,12 @@ func (s *Handler) Stop(reason string) {
 
 	// we must wait since s.ctx is not thread safe
 	<-s.done
+
+	// a configuration that was not picked up by run() is used by the next start
+	if s.nextConf != nil {
+		s.Conf = s.nextConf
+		s.nextConf = nil
+	}
 }
 
 // Log implements logger.Writer.
@@ -260,10 +270,19 @@ func (s *Handler) run() {
 	recreating := false
 	recreateTimer := emptyTimer()
 
+	// configuration that has to be delivered to the instance
+	var pendingConf *conf.Path
+
 	for {
+		var chRunReloadConf chan *conf.Path
+		if pendingConf != nil {
+			chRunReloadConf = runReloadConf
+		}
+
 		select {
 		case err := <-runErr:
 			runCtxCancel()
+			pendingConf = nil
 			s.instance.Log(logger.Error, err.Error())
 			recreating = true
 			recreateTimer = time.NewTimer(retryPause)
@@ -274,18 +293,21 @@ func (s *Handler) run() {
 		case req := <-s.chInstanceSetNotReady:
 			s.Parent.StaticSourceHandlerSetNotReady(s.ctx, req)
 
-		case newConf := <-s.chReloadConf:
-			s.Conf = newConf
-			if !recreating {
-				cReloadConf := runReloadConf
-				cInnerCtx := runCtx
-				go func() {
-					select {
-					case cReloadConf <- newConf:
-					case <-cInnerCtx.Done():
-					}
-				}()
+		case <-s.chReloadConf:
+			s.nextConfMutex.Lock()
+			newConf := s.nextConf
+			s.nextConf = nil
+			s.nextConfMutex.Unlock()
+
+			if newConf != nil {
+				s.Conf = newConf
+				if !recreating {
+					pendingConf = newConf
+				}
 			}
+
+		case chRunReloadConf <- pendingConf:
+			pendingConf = nil
 
 		case <-recreateTimer.C:
 			recreate()
@@ -302,9 +324,9 @@ func (s *Handler) run() {
 }
 
 // ReloadConf is called by path.
+// Configurations are applied in the order in which they are submitted;
+// if several are submitted before they are picked up, the last one wins.
 func (s *Handler) ReloadConf(newConf *conf.Path) {
-	ctx := s.ctx
-
 	if !s.running {
 		// there's no routine that can receive the configuration;
 		// store it, it will be used on next start.
@@ -312,12 +334,14 @@ func (s *Handler) ReloadConf(newConf *conf.Path) {
 		return
 	}
 
-	go func() {
-		select {
-		case s.chReloadConf <- newConf:
-		case <-ctx.Done():
-		}
-	}()
+	s.nextConfMutex.Lock()
+	s.nextConf = newConf
+	s.nextConfMutex.Unlock()
+
+	select {
+	case s.chReloadConf <- struct{}{}:
+	default:
+	}
 }
 
 // APISourceDescribe instanceements source.
